@@ -186,3 +186,32 @@ def integrate(vc):
         vc.ensure('C17/integrate/post/value', Implies(rng_ok, eq(R['data'].at((0, j)), want)))
         vc.ensure('C17/integrate/post/spectrum-carries-parent-fs', Implies(rng_ok, eq(R['fs'].at((j,)), p['fs'].at((j,)))))
         inherited(vc, 'integrate', res, f, p, dt=p['dt'] * p['T'])
+
+
+@contract('C17', 'integrate_normalized', functions=['setigen.integrate:integrate', 'setigen.timeseries:TimeSeries.__init__', 'setigen.spectrum:Spectrum.__init__'],
+          note="normalize=True: the sigma-clipped set is astropy's (trusted); the clause is that the returned values are (x - mean(clipped))/std(clipped) in every output form")
+def integrate_normalized(vc):
+    axis = ('t', 'f')[vc.choose(2, 'axis')]
+    as_frame = bool(vc.choose(2, 'as_frame'))
+    f, p = frame_obj(vc, True)
+    out = vc.call('setigen.integrate:integrate', f, axis=axis, mode='mean', normalize=True, as_frame=as_frame)
+    vc.ensure('C17/integrate/normalize/exc/none', out.ok)
+    if not out.ok:
+        return
+    calls = getattr(vc.interp, 'sigma_clip_calls', [])
+    D = p['data']
+    i = Int('i')
+    over_f = axis == 'f'
+    nlen = p['T'] if over_f else p['n']
+    raw = (L.sum_term(p['n'], lambda c: D.at((i, c))) / p['n']) if over_f else (L.sum_term(p['T'], lambda r: D.at((r, i))) / p['T'])
+    # the first sigma_clip call is the one on the integrated data
+    clipped = calls[0][1]
+    m = L.sum_term(clipped.shape[0], lambda q: clipped.at((q,))) / clipped.shape[0]
+    var = L.sum_term(clipped.shape[0], lambda q: (clipped.at((q,)) - m) * (clipped.at((q,)) - m)) / clipped.shape[0]
+    sd = sqrt(var)
+    want = (raw - m) / sd
+    if as_frame:
+        got = out.value.fields['data'].at((i, 0) if over_f else (0, i))
+    else:
+        got = out.value.at((i,))
+    vc.ensure('C17/integrate/normalize/post/(x-mean(clipped))/std(clipped)-in-every-output-form', Implies(And(i >= 0, i < nlen), eq(got, want)))
